@@ -3,6 +3,8 @@ package gen
 import (
 	"encoding/json"
 	"math"
+	"regexp"
+	"strings"
 
 	"pgregory.net/rapid"
 )
@@ -464,10 +466,24 @@ func (g *G) variantOf(q *Query) *Query {
 	if json.Unmarshal(b, &c) != nil {
 		return q
 	}
+	// blankTwin drops the blanks of a text, or puts one into the middle of a text without any:
+	// blanks inside names, string literals and regular expressions are significant
+	blankTwin := func(t string) string {
+		if strings.Contains(t, " ") {
+			return strings.ReplaceAll(t, " ", "")
+		}
+		if r := []rune(t); len(r) >= 2 {
+			return string(r[:len(r)/2]) + " " + string(r[len(r)/2:])
+		}
+		return t
+	}
 	rename := func(p *Path) bool {
 		for i := range p.Steps {
 			if p.Steps[i].Kind == KName {
 				old := p.Steps[i].Key
+				if g.chance("blankkey", 30) {
+					p.Steps[i].Key = blankTwin(old)
+				}
 				for try := 0; try < 4 && p.Steps[i].Key == old; try++ {
 					p.Steps[i].Key = g.key()
 				}
@@ -481,6 +497,14 @@ func (g *G) variantOf(q *Query) *Query {
 	}
 	switch c.Kind {
 	case QExists, QRegex:
+		if c.Kind == QRegex && g.chance("blankre", 40) {
+			if t := blankTwin(c.Re); t != c.Re {
+				if _, err := regexp.Compile(t); err == nil {
+					c.Re = t
+					return &c
+				}
+			}
+		}
 		if !rename(c.P) {
 			c.P.Steps = append([]Step{{Kind: KName, Key: g.key(), Not: NSQ}}, c.P.Steps...)
 		}
@@ -496,6 +520,12 @@ func (g *G) variantOf(q *Query) *Query {
 		case 1:
 			for _, o := range []*Operand{c.B, c.A} {
 				if o.IsLit {
+					if o.LK == LStr && g.chance("blanklit", 50) {
+						if t := blankTwin(o.Str); t != o.Str {
+							o.Str = t
+							return &c
+						}
+					}
 					*o = *g.Literal(c.Op != "==" && c.Op != "!=")
 					return &c
 				}
